@@ -23,7 +23,7 @@ def realiser(prefix):
 def find(fn):
     best = None
     for p, r in REALISERS:
-        if fn.startswith(p) and (best is None or len(p) > len(best[0])):
+        if fn.startswith(p) and (best is None or len(p) >= len(best[0])):
             best = (p, r)
     return best[1] if best else None
 
@@ -260,6 +260,10 @@ def _native_check(d, env_fn, call_fn, complete=True):
 def r_protocol(d):
     mod, cls, meth = _class_of(d["function"])
     m = d["model"]
+    if d.get("kind") == "standin":
+        if meth in ("canhandlerequest", "getProtocol", "__init__", "check_tls", "headerslurp"):
+            return r_protocol_corpus(d)
+        return r_site_crawl(d)
     if cls is None:
         return r_getprotocol(d)
     state = {}
@@ -311,6 +315,32 @@ class _LazyHeaders(dict):
 
     def __getitem__(self, k):
         return self._d()[k]
+
+
+def r_protocol_corpus(d):
+    """Bounded stand-in for protocol detection: a corpus of request lines x {plaintext, TLS} through the real
+    getProtocol, compared with the specification first_matching over the configured order."""
+    import ast as _ast
+    from pygopherd import testutil, logger
+    logger.log = lambda m: None
+    cfg = testutil.get_config()
+    order = [e.attr for e in _ast.parse(cfg.get("protocols.ProtocolMultiplexer", "protocols").strip(), mode="eval").body.elts]
+    waptop = cfg.get("protocols.wap.WAPProtocol", "waptop")
+    sels = ["/", "", "/a b", "/x\ty", "\t", "/s\t", "/s\tq\t", "/s\t+", "/s\t!", "/s\t$", "/s\t!x", "/s\tq\t+", "/s\tq\t$x", "/s\ta\tb\t+",
+            "GET / HTTP/1.0", "HEAD /x HTTP/1.1", "GET  / HTTP/1.0", "GET / HTTP/1.0 x", "GET /wap/x HTTP/1.0", "POST / HTTP/1.0", "GET / http/1.0",
+            "gemini://h/x", "Gemini://h/x", " gemini://h/", "h /p 0", "h /p 12", "h /p -1", "h /p x", "h  /p 0", "h /p 0 0", "h /p \u0662", "\x16/s", "h /\xe9 0"]
+    for line in sels:
+        for tls in (False, True):
+            req = line + "\r\n"
+            try:
+                p_ = testutil.get_testing_protocol(req, cfg, use_tls=tls)
+                got = type(p_).__name__ if p_ is not None else None
+            except Exception as e:  # noqa
+                return {"confirmed": True, "request": req, "tls": tls, "raised": repr(e)}
+            exp = S.first_matching(order, req, tls, waptop, {})
+            if got != exp:
+                return {"confirmed": True, "request": req, "tls": tls, "claimed_by": got, "specification": exp}
+    return {"confirmed": None, "note": "corpus agrees with the specification"}
 
 
 def r_getprotocol(d):
@@ -519,6 +549,56 @@ def _handle_requests(cls):
     return out
 
 
+def _fd_leak_scenarios(cls, root):
+    """Every file opened for a request is closed, also when the client connection fails mid-body."""
+    import errno, gc, socket
+    from pygopherd import testutil
+    import pygopherd.handlers.base as hb
+    import pygopherd.handlers.HandlerMultiplexer as hm
+    name = cls.__name__
+    if "Gemini" in name:
+        req = "gemini://localhost/big.bin\r\n"
+    elif "Spartan" in name:
+        req = "localhost /big.bin 0\r\n"
+    elif "HTTP" in name or "WAP" in name:
+        req = "GET /big.bin HTTP/1.0\r\n"
+    elif "Plus" in name:
+        req = "/big.bin\t+\r\n"
+    else:
+        req = "/big.bin\r\n"
+
+    def fds():
+        out = {}
+        for f in os.listdir("/proc/self/fd"):
+            try:
+                out[f] = os.readlink("/proc/self/fd/" + f)
+            except OSError:
+                pass
+        return out
+
+    for k in (1, 2, 3, 6):
+        hb.rootpath = None; hm.rootpath = None; hm.handlers = None
+        cfg = testutil.get_config()
+        cfg.set("pygopherd", "root", root)
+        tls = getattr(cls, "secure", False)
+        h = testutil.get_testing_handler(io.BytesIO(), io.BytesIO(), cfg, use_tls=tls)
+        w = _FaultyW(k, BrokenPipeError(errno.EPIPE, "Broken pipe"))
+        proto = cls(req, h.server, h, io.BytesIO(b"\r\n"), w, cfg)
+        before = fds()
+        try:
+            proto.canhandlerequest()
+            proto.handle()
+        except BaseException:  # noqa
+            pass
+        del proto
+        gc.collect()
+        after = fds()
+        left = {f: p for f, p in after.items() if f not in before and root in p}
+        if left:
+            return {"confirmed": True, "request": req, "fail_at_write": k, "descriptors_left_open": left}
+    return None
+
+
 def r_handle_faults(d):
     """Replay for handle(): drive the real protocol with a client socket that fails at the k-th write with a
     one-argument timeout or a two-argument EPIPE, and see what leaves handle()."""
@@ -526,9 +606,22 @@ def r_handle_faults(d):
     from pygopherd import testutil, logger
     import pygopherd.handlers.base as hb
     import pygopherd.handlers.HandlerMultiplexer as hm
+    import pygopherd.handlers.base as hb
+    import pygopherd.handlers.HandlerMultiplexer as hm
     mod, cls, meth = _class_of(d["function"])
-    logger.log = lambda m: None
+    logs = []
+    logger.log = lambda m: logs.append(m)
     findings = []
+    import gc, shutil, tempfile
+    big = tempfile.mkdtemp(prefix="pyvc-c20-", dir="/var/tmp")
+    try:
+        open(os.path.join(big, "big.bin"), "wb").write(b"\xa5" * (1 << 20))
+        leak = _fd_leak_scenarios(cls, big)
+        if leak:
+            return leak
+    finally:
+        shutil.rmtree(big, ignore_errors=True)
+        hb.rootpath = None; hm.rootpath = None; hm.handlers = None
     for req in _handle_requests(cls):
         for mk in (lambda: socket.timeout("timed out"), lambda: BrokenPipeError(errno.EPIPE, "Broken pipe")):
             for k in range(0, 8):
@@ -548,10 +641,16 @@ def r_handle_faults(d):
                 except BaseException as e:  # noqa
                     raised = e
                 if raised is None:
+                    # the protocol swallowed the failure itself: the log must not show a foreign class
+                    bad = [l for l in logs if "EXCEPTION" in l and not any(t in l for t in ("FileNotFound", "TimeoutError", "BrokenPipeError", "timeout", "OSError", "ConnectionResetError"))]
+                    if bad and d["kind"] in ("standin", "raises", "on_raise"):
+                        return {"confirmed": True, "request": req, "fail_at_write": k, "injected": repr(injected), "log": bad[:2], "note": "the failure was logged under a foreign error class"}
+                    del logs[:]
                     continue
+                del logs[:]
                 foreign = not isinstance(raised, OSError)
                 not_injected = isinstance(raised, OSError) and raised is not injected and type(raised) is not type(injected)
-                if (d["kind"] == "raises" and foreign) or (d["kind"] == "on_raise" and (foreign or not_injected)):
+                if (d["kind"] in ("raises", "standin") and foreign) or (d["kind"] in ("on_raise", "standin") and (foreign or not_injected)):
                     return {"confirmed": True, "request": req, "fail_at_write": k, "injected": repr(injected), "escaped": repr(raised)}
                 findings.append((req, k, repr(raised)))
     return {"confirmed": None, "note": "no foreign exception escaped handle() under the injected faults tried", "seen": findings[:6]}
@@ -644,6 +743,40 @@ def r_dir(d):
             if h.fromcache or len(h.fileentries) != 3:
                 return {"confirmed": True, "scenario": "cache older than its lifetime was used", "entries": len(h.fileentries)}
             # and a fresh one is (with an empty pickled list the listing is empty)
+        if "processLinkFile" in name or "getLinkItem" in name or "prepare" in name or "standin" in d.get("kind", ""):
+            # metadata edits must show in a regenerated listing (lifetime 0)
+            cfg.set("handlers.dir.DirHandler", "cachetime", "0")
+            if os.path.exists(cachefile):
+                os.unlink(cachefile)
+            open(os.path.join(top, ".Links"), "w").write("Name=Old Mirror\nType=1\nPath=/old\nHost=h.example\nPort=70\n")
+            h = mk(UMNDirHandler); h.prepare()
+            n1 = sorted(str(e.name) for e in h.fileentries)
+            open(os.path.join(top, ".Links"), "w").write("Name=New Mirror\nType=1\nPath=/old\nHost=h.example\nPort=70\n")
+            h = mk(UMNDirHandler); h.prepare()
+            n2 = sorted(str(e.name) for e in h.fileentries)
+            os.unlink(os.path.join(top, ".Links"))
+            cfg.set("handlers.dir.DirHandler", "cachetime", "180")
+            if "New Mirror" not in n2 or "Old Mirror" in n2:
+                return {"confirmed": True, "scenario": "a link file rewritten between two regenerated listings (lifetime 0) is not re-read", "second_listing": n2}
+        if "loadcache" in name or "savecache" in name or "standin" in d.get("kind", ""):
+            # history independence with caching on: HTTP listing, Gopher+ listing (from the cache), HTTP listing again
+            import re as _re
+            if os.path.exists(cachefile):
+                os.unlink(cachefile)
+            os.makedirs(os.path.join(top, "subdir"), exist_ok=True)
+            hb.rootpath = None; hm.rootpath = None; hm.handlers = None
+            strip = lambda b: _re.sub(rb"Last-Modified:[^\r]*\r\n", b"", b)
+            r1, _l = _serve(b"GET / HTTP/1.0\r\n\r\n", cfg)
+            _serve(b"/\t$\r\n", cfg)
+            r3, _l = _serve(b"GET / HTTP/1.0\r\n\r\n", cfg)
+            g1, _l = _serve(b"/\r\n", cfg)
+            _serve(b"/\t$\r\n", cfg)
+            g2, _l = _serve(b"/\r\n", cfg)
+            os.rmdir(os.path.join(top, "subdir"))
+            if os.path.exists(cachefile):
+                os.unlink(cachefile)
+            if strip(r1) != strip(r3) or g1 != g2:
+                return {"confirmed": True, "scenario": "the answer to a listing request changed after a Gopher+ listing of the same directory was served from the cache (history dependence)"}
         if "savecache" in name or "getdirlist" in name:
             h = mk(); h.prepare(); h.getdirlist()
             m0 = os.stat(cachefile).st_mtime_ns
@@ -659,6 +792,9 @@ def r_dir(d):
             os.symlink("/nonexistent/target", os.path.join(top, "dangling"))
             open(os.path.join(top, "x..y"), "w").write("z")
             os.mkfifo(os.path.join(top, "fifo"))
+            os.symlink("loop%s", os.path.join(top, "loop%s"))          # ELOOP, '%' in the name
+            os.symlink("a.txt/below", os.path.join(top, "100%_mirror"))  # ENOTDIR
+            os.symlink("/nonexistent/b", os.path.join(top, "b.link"))    # dangling, sorts between a.txt and b.txt
             for cls in (DirHandler, UMNDirHandler):
                 h = mk(cls)
                 try:
@@ -672,3 +808,117 @@ def r_dir(d):
     finally:
         shutil.rmtree(top, ignore_errors=True)
         hb.rootpath = None; hm.rootpath = None; hm.handlers = None
+
+
+# ------------------------------------------------------------------- site crawl (C04/C05/C03 stand-in)
+def _serve(reqbytes, cfg, tls=False):
+    from pygopherd import testutil, logger
+    logs = []
+    logger.log = lambda msg: logs.append(msg)
+
+    class W(io.BytesIO):
+        def close(self):
+            pass
+
+    h = testutil.get_testing_handler(io.BytesIO(reqbytes), io.BytesIO(), cfg, use_tls=tls)
+    h.wfile = W()
+    h.handle()
+    return h.wfile.getvalue(), logs
+
+
+def r_site_crawl(d):
+    """Build a site with awkward names and contents, list it in every protocol, follow every local link with the
+    protocol's own syntax and compare the body with the bytes on disk; also check that no request ends in an
+    unhandled internal error and that answers do not depend on earlier requests."""
+    import re as _re, shutil, tempfile, urllib.parse
+    import pygopherd.handlers.base as hb
+    import pygopherd.handlers.HandlerMultiplexer as hm
+    top = tempfile.mkdtemp(prefix="pyvc-site-", dir="/var/tmp")
+    try:
+        files = {"plain.txt": b"hello\n", "what?.txt": b"question\n", "notes": b"n\n", "notes?v=2": b"v2\n", "a b&c=d.txt": b"amp\n",
+                 "100%.txt": b"pct\n", "empty.bin": b"", "blk.bin": bytes(range(256)) * 16, "big.bin": bytes(range(256)) * 17 + b"x",
+                 "why?really?.txt": b"two\n"}
+        os.makedirs(os.path.join(top, "sub"))
+        for n, data in files.items():
+            open(os.path.join(top, n), "wb").write(data)
+        open(os.path.join(top, "sub", "inner.txt"), "wb").write(b"inner\n")
+        cfg = _config({})
+        cfg.set("pygopherd", "root", top)
+        cfg.set("handlers.dir.DirHandler", "cachetime", "0")
+        hb.rootpath = None; hm.rootpath = None; hm.handlers = None
+        problems = []
+
+        def internal_errors(logs):
+            return [l for l in logs if "EXCEPTION" in l and "FileNotFound" not in l]
+
+        # Gopher
+        out, logs = _serve(b"/\r\n", cfg)
+        if internal_errors(logs) or not out:
+            return {"confirmed": True, "request": "/", "log": internal_errors(logs)[:2], "reply": repr(out[:60])}
+        for line in out.decode("utf-8", "surrogateescape").splitlines():
+            parts = line.split("\t")
+            if len(parts) >= 4 and line[0] == "0":
+                sel = parts[1]
+                body, logs = _serve(sel.encode("utf-8", "surrogateescape") + b"\r\n", cfg)
+                name = sel.lstrip("/")
+                if internal_errors(logs) or (name in files and body != files[name]):
+                    return {"confirmed": True, "protocol": "gopher", "selector": sel, "log": internal_errors(logs)[:2], "body": repr(body[:40])}
+                plus, logs = _serve(sel.encode("utf-8", "surrogateescape") + b"\t+\r\n", cfg)
+                if name in files and plus.startswith(b"+"):
+                    head, _, rest = plus.partition(b"\r\n")
+                    n = int(head[1:])
+                    if rest != files[name] or (n != -2 and n != len(rest)):
+                        return {"confirmed": True, "protocol": "gopher+", "selector": sel, "length_header": n, "body_len": len(rest)}
+        # HTTP: follow the HREFs of the server's own listing
+        out, logs = _serve(b"GET / HTTP/1.0\r\n\r\n", cfg)
+        first = out
+        for href in _re.findall(rb'<A HREF="(/[^"]*)">', out):
+            if href.startswith(b"/PYGOPHERD") or href == b"/":
+                continue
+            for method in (b"GET", b"HEAD"):
+                resp, logs = _serve(method + b" " + href + b" HTTP/1.0\r\n\r\n", cfg)
+                name = urllib.parse.unquote(href.decode(), errors="surrogateescape").lstrip("/")
+                head, _, body = resp.partition(b"\r\n\r\n")
+                if internal_errors(logs):
+                    return {"confirmed": True, "protocol": "http", "href": href.decode(), "log": internal_errors(logs)[:2]}
+                if name in files:
+                    if not head.startswith(b"HTTP/1.0 200"):
+                        return {"confirmed": True, "protocol": "http", "href": href.decode(), "status": head[:40].decode("latin-1"), "note": "link from the server's own listing is not served"}
+                    if method == b"GET" and body != files[name]:
+                        return {"confirmed": True, "protocol": "http", "href": href.decode(), "body": repr(body[:40]), "expected": repr(files[name][:40])}
+                    if method == b"HEAD" and body:
+                        return {"confirmed": True, "protocol": "http HEAD", "href": href.decode(), "body_bytes": len(body)}
+        # history independence: the same HTTP listing after a Gopher+ listing
+        _serve(b"/\t$\r\n", cfg)
+        again, logs = _serve(b"GET / HTTP/1.0\r\n\r\n", cfg)
+        strip = lambda b: _re.sub(rb"Last-Modified:[^\r]*\r\n", b"", b)
+        if strip(again) != strip(first):
+            return {"confirmed": True, "note": "the HTTP listing of / changed after a Gopher+ listing was served (history dependence)"}
+        # malformed / odd selectors must get a well-formed answer, never an internal error
+        for req in (b"/a|b|c\r\n", b"/a?b?c\r\n", b"/sub|x|y\t+\r\n", b"GET /a%7Cb%7Cc HTTP/1.0\r\n\r\n", b"h /a%3Fb%3Fc 0\r\n", b"/why?really?.txt\r\n"):
+            resp, logs = _serve(req, cfg)
+            if internal_errors(logs) or not resp:
+                return {"confirmed": True, "request": repr(req), "log": internal_errors(logs)[:2], "reply": repr(resp[:40])}
+        return {"confirmed": None, "note": "crawl consistent"}
+    finally:
+        shutil.rmtree(top, ignore_errors=True)
+        hb.rootpath = None; hm.rootpath = None; hm.handlers = None
+
+
+REALISERS.append(("pygopherd/handlers/virtual.py::", r_site_crawl))
+def _first_confirmed(*fns):
+    def run(d):
+        last = None
+        for f in fns:
+            last = f(d)
+            if last.get("confirmed"):
+                return last
+        return last
+    return run
+
+
+REALISERS.append(("pygopherd/handlers/HandlerMultiplexer.py::", _first_confirmed(r_site_crawl, lambda d: r_dir(dict(d, obligation=d.get("obligation", "") + " prep_entries")))))
+REALISERS.append(("pygopherd/handlers/base.py::VFS_Real.copyto", _first_confirmed(r_copyto, lambda d: r_handle_faults(dict(d, function="pygopherd/protocols/rfc1436.py::GopherProtocol.canhandlerequest")))))
+REALISERS.append(("pygopherd/protocols/http.py::HTTPProtocol.handle", lambda d: (r_handle_faults(d) if d.get("kind") != "standin" else (lambda a, b: a if a.get("confirmed") else b)(r_site_crawl(d), r_handle_faults(d)))))
+
+REALISERS.append(("pygopherd/protocols/base.py::BaseGopherProtocol.filenotfound", r_handle_faults))
